@@ -859,9 +859,11 @@ class C11(Prop):
                 elif op == "append":
                     real.append(self.strat[arg])
                     letters.append(arg)
-                elif self.strat[arg] in real:
-                    real.remove(self.strat[arg])
-                    letters.remove(arg)
+                else:
+                    if self.strat[arg] in real:
+                        real.remove(self.strat[arg])
+                    if arg in letters:
+                        letters.remove(arg)
                 emit(line, "[" + ",".join(self.strat_letter.get(x, "?") for x in real) + "]")
             elif t[0] == "newh" and len(t) == 4 and (t[2] == "-" or t[2] in CO_FNS) and (t[3] == "-" or t[3] in MISFOLD_FNS):
                 try:
